@@ -333,16 +333,22 @@ NamespacesHandler::addExtensionNamespaceURI(
 const XalanDOMString*
 NamespacesHandler::getNamespace(const XalanDOMString&   thePrefix) const
 {
-    const NamespacesVectorType::value_type*     theNamespace =
-        findByPrefix(m_excludedResultPrefixes, thePrefix);
+    // The declarations are those in scope for the owner element, while the
+    // excluded prefixes include the ones inherited from ancestors, which a
+    // declaration on the owner element may have bound to another namespace.
+    const XalanDOMString* const     theURI =
+        findNamespace(m_namespaceDeclarations, thePrefix);
 
-    if (theNamespace != 0)
+    if (theURI != 0)
     {
-        return &theNamespace->getURI();
+        return theURI;
     }
     else
     {
-        return findNamespace(m_namespaceDeclarations, thePrefix);
+        const NamespacesVectorType::value_type* const   theNamespace =
+            findByPrefix(m_excludedResultPrefixes, thePrefix);
+
+        return theNamespace != 0 ? &theNamespace->getURI() : 0;
     }
 }
 
